@@ -172,9 +172,9 @@ static std::string dynamic(const pg::ProgCase& c) {
 
 int main(int argc, char** argv) {
 	vh::registerCheck<ArCase>("arith", genArith, arith);
-	vh::registerCheck<pg::ProgCase>("structure", [] { return pg::genProgCase({4, 1, 6, 1, 2, 0, 2}, 100, false); }, structure, false,
+	vh::registerCheck<pg::ProgCase>("structure", [] { return pg::genProgCase({4, 1, 6, 1, 2, 0, 2, 0, 3}, 100, false); }, structure, false,
 		[](const pg::ProgCase& c) { return pg::minimize(c, [](const pg::ProgCase& t) { return !structure(t).empty(); }); });
-	vh::registerCheck<pg::ProgCase>("dynamic", [] { return pg::genProgCase({3, 0, 8, 0, 2, 0, 2}, 100, false); }, dynamic, false,
+	vh::registerCheck<pg::ProgCase>("dynamic", [] { return pg::genProgCase({3, 0, 8, 0, 2, 0, 2, 0, 3}, 100, false); }, dynamic, false,
 		[](const pg::ProgCase& c) { return pg::minimize(c, [](const pg::ProgCase& t) { return !dynamic(t).empty(); }); });
 	return vh::harnessMain(argc, argv);
 }
